@@ -217,7 +217,10 @@ def siblings(rep):
                 src = n.value.args[0]
                 d = default_of(init_a, norm(src).split(".")[-1]) if isinstance(src, ast.Attribute) else None
                 try:
-                    keys = const(d) if d is not None else const(src)
+                    from ..core import module_const as _mc
+                    if d is None and isinstance(src, ast.Call) and call_name(src) in ("tuple", "list") and src.args:
+                        src = src.args[0]
+                    keys = _mc(init_a.module, d) if d is not None else _mc(init_a.module, src)
                 except ValueError:
                     keys = None
     rep.ob("O18.4", "R13", gm, em is not None and keys is not None and tuple(keys) == tuple(ekc),
